@@ -34,6 +34,16 @@ func (c05) Gen(dt *drv.T, c *Ctx) any {
 	for i := 0; i < extra; i++ {
 		cs.Prog.Body = append(cs.Prog.Body, &Stmt{Op: "if", Cond: genCond(dt), Body: []*Stmt{genSig(dt, pc.SigKinds)}})
 	}
+	if chance(dt, "namesakes", 15) {
+		// two failure sites at different lines of one closure of a helper that is named like a library internal
+		kind, a, b := "panicString", 4, 10
+		if drv.Bool().Draw(dt, "namesake2") {
+			kind, a, b = "panicError", 5, 11
+		}
+		cs.Prog.Body = append(cs.Prog.Body,
+			&Stmt{Op: "if", Cond: genCond(dt), Body: []*Stmt{{Op: "sig", Kind: kind, Site: a}}},
+			&Stmt{Op: "if", Cond: genCond(dt), Body: []*Stmt{{Op: "sig", Kind: kind, Site: b}}})
+	}
 	cs.Cfg = genCheckCfg(dt, "TestC05", 150)
 	cs.Cfg.DebugVis = vis
 	genShrinkSetting(dt, cs)
